@@ -26,6 +26,16 @@ pub fn run(ctx: &Ctx) -> CheckResult {
         spaces.push(Space { cfg: Cfg::p1(Kind::Cci, n), alphabet: with_reset(grid.clone()), depth: db, label: "B_grid+reset" });
         spaces.push(Space { cfg: Cfg::p1(Kind::Mfi, n), alphabet: vol.clone(), depth: dv, label: "B_vol" });
     }
+    // positive prices with one symbol 2.5e8 times larger: a big move that entered and left the window
+    // must not leave residue in a (well-conditioned) later output
+    let mut spike = S_POS.to_vec();
+    spike.push(2.5e8);
+    let spike_ops = s_ops(&spike);
+    for n in 1..=4usize {
+        for k in [Kind::Rsi, Kind::FastStoch, Kind::Roc, Kind::Er] {
+            spaces.push(Space { cfg: Cfg::p1(k, n), alphabet: spike_ops.clone(), depth: d - 1, label: "S_pos+spike" });
+        }
+    }
     // MFI-specific alphabet with equal typical prices between different bars, deeper
     let mfi_bars = b_ops(&b_mfi());
     for n in 1..=4usize {
@@ -159,7 +169,7 @@ pub fn run(ctx: &Ctx) -> CheckResult {
     }
     res.require(res.out.stats.evaluations > 0, "no applicable oracle evaluation");
     res.rule = "case = (configuration, history of positive prices / valid bars) replayed on a fresh real instance; last output compared with the documented formula evaluated from scratch (double-double) at tolerance tau(t)*c*scale; steps with zero reference denominator or c>1e6 are skipped and counted; non-trivial = applicable and history longer than the look-back".into();
-    res.bounds = format!("seq(S_pos+reset,{d}) for RSI/FAST_STOCH/ROC/ER n=1..5; seq(B_grid+reset,{db}) for FAST_STOCH/CCI/OBV; seq(B_vol,{dv}) for MFI n=1..5 and OBV; seq(B_mfi (5 bars with equal typical prices), 8/10) for MFI n=1..4; the same alphabets in a 2^-60 price unit for periods 1..4 at reduced depth; SLOW_STOCH over {{1,2,3,5}}^2, PPO over {{1,2,3,5}}^3 at reduced depth; deviation families for periods up to {}; very long runs (2 x 25k / 2 x 500k steps) of RSI/FAST_STOCH/SLOW_STOCH/ROC/ER/PPO/OBV against an incremental double-double reference", if th { 512 } else { 100 });
+    res.bounds = format!("seq(S_pos+reset,{d}) for RSI/FAST_STOCH/ROC/ER n=1..5 (and S_pos + a 2.5e8 spike symbol, n=1..4, one level shallower); seq(B_grid+reset,{db}) for FAST_STOCH/CCI/OBV; seq(B_vol,{dv}) for MFI n=1..5 and OBV; seq(B_mfi (5 bars with equal typical prices), 8/10) for MFI n=1..4; the same alphabets in a 2^-60 price unit for periods 1..4 at reduced depth; SLOW_STOCH over {{1,2,3,5}}^2, PPO over {{1,2,3,5}}^3 at reduced depth; deviation families for periods up to {}; very long runs (2 x 25k / 2 x 500k steps) of RSI/FAST_STOCH/SLOW_STOCH/ROC/ER/PPO/OBV against an incremental double-double reference", if th { 512 } else { 100 });
     res.assumptions = vec!["positive prices / valid bars only (the statement's domain)".into(), "c read as (largest magnitude entering numerator or denominator, inputs included) / |reference denominator|".into()];
     res
 }
